@@ -13,7 +13,7 @@ MODEL of the code (Kap/Model/C18.lean, tied to /repo by the correspondence run) 
     the end of a component, below the scanner's token limit) — given the external line-protocol law `LPLaw`;
   * for batches: for EVERY list of batches, relative to the input rewritten by exactly the three recorded deviations.
 -/
-import Kap.Proofs.C18Line
+import Kap.Proofs.C18Live
 namespace Kap.Props.C18
 open Kap.C18
 
@@ -29,6 +29,53 @@ are read back exactly, without error — for every list of frames. -/
 theorem framing_roundtrip (fs : List Frame) (h : ∀ f ∈ fs, f.clean) :
     readFrames maxTok (writeFrames fs) = (fs, true) :=
   readFrames_writeFrames fs h
+
+/-- **framing_roundtrip_iff — the reader since c988361, characterised exactly**: for EVERY list of frames the
+recording reads back as the frames that were written, without error, IF AND ONLY IF every frame is `clean`: database and
+retention policy without line feed, without trailing carriage return and below the Scanner limit; the line below the
+limit, without trailing carriage return, and ONE token of `scanLineProtocolLine` (`lpClosed`: every line feed in it is
+inside a quoted field value or protected by a backslash, and the line neither ends inside an open quote nor in a lone
+backslash). ⇒ is by inversion of the reader: a token never contains the line feed it stopped at, `dropCR` only removes,
+and a token of the quote-aware search that equals the written line forces its final state to be outside quotes. -/
+theorem framing_roundtrip_iff (fs : List Frame) :
+    readFrames maxTok (writeFrames fs) = (fs, true) ↔ ∀ f ∈ fs, f.clean :=
+  readFrames_writeFrames_iff fs
+
+/-- Non-vacuity of both sides: a frame whose line carries a line feed inside a quoted field value is clean and reads
+back; the same bytes with the line feed in a tag value are not clean and do not. -/
+example : (⟨[100], [114], [109, 32, 115, 61, 34, 97, 10, 98, 34, 32, 49]⟩ : Frame).clean ∧
+    ¬ (⟨[100], [114], [109, 44, 107, 61, 97, 10, 98, 32, 118, 61, 49, 32, 53]⟩ : Frame).clean := by decide
+
+/-- **Every clause of `clean` is needed — one failing shape each** (evaluation of the reader): line feed in the
+database; in the retention policy; carriage return at the end of the database; of the retention policy; unquoted line
+feed in the line (tag value); a line ending in a lone backslash (it swallows the terminating line feed); a line ending
+inside an open quote; a line ending in a carriage return. None reads back as written. -/
+theorem framing_failing_shapes :
+    readFrames maxTok (writeFrames [⟨[97, 10, 98], [114], [109]⟩]) ≠ ([⟨[97, 10, 98], [114], [109]⟩], true) ∧
+    readFrames maxTok (writeFrames [⟨[100], [114, 10, 120], [109]⟩]) ≠ ([⟨[100], [114, 10, 120], [109]⟩], true) ∧
+    readFrames maxTok (writeFrames [⟨[100, 13], [114], [109]⟩]) ≠ ([⟨[100, 13], [114], [109]⟩], true) ∧
+    readFrames maxTok (writeFrames [⟨[100], [114, 13], [109]⟩]) ≠ ([⟨[100], [114, 13], [109]⟩], true) ∧
+    readFrames maxTok (writeFrames [⟨[100], [114], [109, 44, 107, 61, 97, 10, 98, 32, 118, 61, 49, 32, 53]⟩]) ≠
+      ([⟨[100], [114], [109, 44, 107, 61, 97, 10, 98, 32, 118, 61, 49, 32, 53]⟩], true) ∧
+    readFrames maxTok (writeFrames [⟨[100], [114], [109, 92]⟩]) ≠ ([⟨[100], [114], [109, 92]⟩], true) ∧
+    readFrames maxTok (writeFrames [⟨[100], [114], [109, 32, 115, 61, 34, 97]⟩]) ≠
+      ([⟨[100], [114], [109, 32, 115, 61, 34, 97]⟩], true) ∧
+    readFrames maxTok (writeFrames [⟨[100], [114], [109, 13]⟩]) ≠ ([⟨[100], [114], [109, 13]⟩], true) :=
+  ⟨framing_fail_nl_in_db, framing_fail_nl_in_rp, framing_fail_cr_db, framing_fail_cr_rp, framing_fail_nl_in_tag,
+   framing_fail_trailing_backslash, framing_fail_open_quote, framing_fail_cr_line⟩
+
+/-- The two shapes that are specific to the quote-aware search fail SILENTLY: the token runs over the written line
+feed to the end of the input, the reader reports no error and hands a wrong line to the parser. -/
+theorem framing_silent_overrun :
+    readFrames maxTok (writeFrames [⟨[100], [114], [109, 92]⟩]) = ([⟨[100], [114], [109, 92, 10]⟩], true) ∧
+    readFrames maxTok (writeFrames [⟨[100], [114], [109, 32, 115, 61, 34, 97]⟩]) =
+      ([⟨[100], [114], [109, 32, 115, 61, 34, 97, 10]⟩], true) :=
+  ⟨framing_trailing_backslash_result, framing_open_quote_result⟩
+
+/-- The length clause (out of reach of evaluation): a component of 64 MiB or more is never read back. -/
+theorem framing_too_long_fails (f : Frame) (h : maxTok ≤ f.db.length ∨ maxTok ≤ f.rp.length ∨ maxTok ≤ f.line.length) :
+    readFrames maxTok (writeFrames [f]) ≠ ([f], true) :=
+  framing_fail_too_long f h
 
 /-- **The snapshot's framing (before c988361), characterised exactly**: with plain line splitting for all three
 lines the recording read back as written IF AND ONLY IF no component had any line feed (nor a trailing carriage
@@ -221,7 +268,8 @@ and its replay satisfies the spec. -/
 def exP3 : SPoint := ⟨[100], [114], [109], [], [([115], .str [97, 10, 98, 34])], 7⟩
 
 example : LPDomain exF0 exP3 ∧ FloatTextClean exF0 exP3 ∧ exP3.dirty = false ∧ FitsScanner exF0 1 exP3 := by
-  refine ⟨⟨by decide, by decide, by intro c h; cases h; decide, by decide, by decide, by decide, ?_, by decide, by decide⟩,
+  refine ⟨⟨by decide, by decide, by intro c h; cases h; decide, by decide, by decide, by decide,
+      by intro kv h c hc; cases h; cases hc; decide, ?_, by decide, by decide⟩,
     ?_, by decide, by unfold FitsScanner; decide⟩
   · intro kv hkv
     simp only [exP3, List.mem_cons, List.not_mem_nil, or_false] at hkv
@@ -238,6 +286,7 @@ example : LPDomain exF exP1 where
   tags := by decide
   fields_ne := by decide
   fkeys := by decide
+  fkey_head := by intro kv h c hc; cases h; cases hc; decide
   vals := by
     intro kv hkv
     simp only [exP1, List.mem_cons, List.not_mem_nil, or_false] at hkv
@@ -252,6 +301,42 @@ example : LPDomain exF exP1 where
     · trivial
   tagsSorted := by decide
   fieldsSorted := by decide
+
+/-- **The framing of a RECORDING, characterised on the points**: for points of the domain (`LPDomain`, float texts
+without line feed, lines that fit the Scanner) the framing layer returns exactly the written frames IF AND ONLY IF the
+clause of finding `stream-newline-framing` applies to no point — no line feed in database, retention policy,
+measurement, tag keys, tag values, field keys; no carriage return at the end of database / retention policy. String
+field VALUES are unconstrained. So the finding's clause is exact: not one point more is excluded than must be. -/
+theorem recording_frames_iff_not_dirty (F : FloatCodec) (mult : Int) (ps : List SPoint)
+    (hdom : ∀ p ∈ ps, LPDomain F p ∧ FloatTextClean F p ∧ FitsScanner F mult p) :
+    readFrames maxTok (record F mult ps) = (ps.map (frameOf F mult), true) ↔ ∀ p ∈ ps, p.dirty = false :=
+  readFrames_record_iff F mult ps hdom
+
+/-- Non-vacuity: the point with the string field `a⏎b"` meets the hypotheses (and is not dirty). -/
+example : LPDomain exF0 exP3 ∧ FloatTextClean exF0 exP3 ∧ FitsScanner exF0 1 exP3 ∧ exP3.dirty = false := by
+  refine ⟨⟨by decide, by decide, by intro c h; cases h; decide, by decide, by decide, by decide,
+      by intro kv h c hc; cases h; cases hc; decide, ?_, by decide, by decide⟩,
+    ?_, by unfold FitsScanner; decide, by decide⟩
+  · intro kv hkv
+    simp only [exP3, List.mem_cons, List.not_mem_nil, or_false] at hkv
+    subst hkv; trivial
+  · intro kv hkv b hb
+    simp only [exP3, List.mem_cons, List.not_mem_nil, or_false] at hkv
+    subst hkv; cases hb
+
+/-- The domain hypothesis "no backslash in a name" is needed for ⇒: in the measurement `m\⏎x` the backslash protects
+the line feed from `scanLineProtocolLine`, the frame is clean although the finding's clause applies. -/
+theorem frame_clean_though_dirty_with_backslash :
+    ∃ p : SPoint, (frameOf exF0 1 p).clean ∧ p.dirty = true :=
+  ⟨⟨[100], [114], [109, 92, 10, 120], [], [([118], .int 1)], 5⟩, by decide, by decide⟩
+
+/-- Counterexample (finding `stream-whitespace-fieldkey`, found by driving the real parser on lines of the model's
+grammar): the line written for a point whose first field key is `⇥v` parses — `scanFields` begins with
+`skipWhitespace` — to a point whose key is `v`; the hypothesis `LPDomain.fkey_head` is needed. -/
+theorem whitespace_fieldkey_not_representable :
+    parseLine exF0 1 (lineOf exF0 1 ⟨[100], [114], [109], [], [([9, 118], .int 1)], 5⟩) =
+      .point [109] [] [([118], .int 1)] 5 := by
+  decide
 
 /-- **shift_is_constant (stream)**: whatever was read from the recording, each delivered point is the read point with
 time `t` (recorded-time mode) or `t + (zero − first)` (otherwise), the clock is asked to wait until
@@ -352,5 +437,69 @@ theorem batch_replay_ends_after_last (zero : Int) (recTime : Bool) (bs : List Ba
     let r := batchRoundTrip true zero recTime bs
     r.status = .ok ∧ r.closes = 1 ∧ r.closedAt = r.items.length ∧ r.items.length = (readBatches bs).length := by
   simp [batchRoundTrip, replayBatchesGo_none]
+
+/-! ### Live replays (`replay-live`: `ReplayStreamFromChan` / `ReplayBatchFromChan` fed from a channel) -/
+
+/-- **Live stream replay is faithful — EVERY list of points**, every clock zero, both clock modes: nothing is written
+or parsed between the query and the task, so no domain hypothesis and no deviation clause (names with line feeds,
+backslashes, `#` … are all delivered as they are). -/
+theorem live_stream_replay_faithful (zero : Int) (recTime : Bool) (ps : List SPoint) (G : List (Bytes × Bool × List Bytes)) :
+    specStream recTime ps G (sObs (liveStreamReplay zero recTime ps) G) = none :=
+  liveStreamReplay_spec zero recTime ps G
+
+/-- **Live batch replay is faithful — EVERY list of batches a channel can carry** (code since the `fix:` commit for
+empty batches): batches with and WITHOUT points, with a batch time or with the zero time, int fields, tagless points;
+every clock zero, both clock modes. Every batch is delivered (none skipped), name / by-name / tags / group /
+dimensions / points' tags, field names, types and values unchanged, a batch time that was there is still there, and
+ALL timestamps — point times and batch times, also those of batches without points — identical or shifted by one
+offset; the collector is closed once after the last batch. -/
+theorem live_batch_replay_faithful (zero : Int) (recTime : Bool) (bs : List LBatch) :
+    specBatchLive recTime bs (groupsOfL bs) (lObs (liveBatchReplay true zero recTime bs)) = none :=
+  liveBatchReplay_spec zero recTime bs
+
+/-- Non-vacuity / shape of the result: a leading empty batch (time 100) anchors the offset at clock zero 1000, the
+points at 150 and 160 follow at 1050 and 1060, the empty batch with time 300 is delivered at 1200, the empty batch
+with the zero time inherits that. -/
+example :
+    (liveBatchReplay true 1000 false
+      [⟨⟨[109], false, 100, [], []⟩, true⟩,
+       ⟨⟨[109], false, 200, [], [⟨[], [([118], .int 9007199254740993)], 150⟩, ⟨[], [([118], .bool true)], 160⟩]⟩, true⟩,
+       ⟨⟨[109], false, 300, [], []⟩, true⟩,
+       ⟨⟨[109], false, 0, [], []⟩, false⟩]).items.map (fun o => (o.b.points.map (·.time), o.b.tmax, o.hasT, o.until_))
+      = [([], 1000, true, none), ([1050, 1060], 1100, true, some 1060), ([], 1200, true, none), ([], 1200, true, none)] := by
+  decide
+
+/-- **The offset of a live batch replay is one constant, fixed by the first item that carries a time**: there is a
+`d` such that every delivered batch is the batch put on the channel with its point times and its batch time shifted by
+`d` (kept, in recorded-time mode). -/
+theorem live_batch_shift_is_constant (zero : Int) (recTime : Bool) (bs : List LBatch) :
+    ∃ d, Forall₂ (LiveRel recTime d) bs (liveBatchReplay true zero recTime bs).items :=
+  let ⟨d, _, h⟩ := replayLiveGo_rel zero recTime bs none none
+  ⟨d, h⟩
+
+/-- Counterexample for the snapshot's empty-batch branch (`fixed = false`, before the `fix:`): a point at 5 in a batch
+with time 10, then a batch without points with time 20, replayed at clock zero 1000: the first batch is delivered at
+1000 / 1005, the empty batch still at 20 — the spec fails at "times-identical-or-one-offset"; since the fix it is
+delivered at 1015. -/
+theorem live_empty_batch_time_not_shifted_before_fix :
+    (liveBatchReplay false 1000 false [⟨⟨[109], false, 10, [], [⟨[], [([118], .int 1)], 5⟩]⟩, true⟩, ⟨⟨[109], false, 20, [], []⟩, true⟩]).items.map
+        (fun o => (o.b.points.map (·.time), o.b.tmax)) = [([1000], 1005), ([], 20)]
+    ∧ specBatchLive false [⟨⟨[109], false, 10, [], [⟨[], [([118], .int 1)], 5⟩]⟩, true⟩, ⟨⟨[109], false, 20, [], []⟩, true⟩]
+        (groupsOfL [⟨⟨[109], false, 10, [], [⟨[], [([118], .int 1)], 5⟩]⟩, true⟩, ⟨⟨[109], false, 20, [], []⟩, true⟩])
+        (lObs (liveBatchReplay false 1000 false [⟨⟨[109], false, 10, [], [⟨[], [([118], .int 1)], 5⟩]⟩, true⟩, ⟨⟨[109], false, 20, [], []⟩, true⟩]))
+        = some "times-identical-or-one-offset"
+    ∧ (liveBatchReplay true 1000 false [⟨⟨[109], false, 10, [], [⟨[], [([118], .int 1)], 5⟩]⟩, true⟩, ⟨⟨[109], false, 20, [], []⟩, true⟩]).items.map
+        (fun o => (o.b.points.map (·.time), o.b.tmax)) = [([1000], 1005), ([], 1015)] := by
+  decide
+
+/-- **replay_ends_after_last (live)**: one delivery per item put on the channel, closed once after the last. -/
+theorem live_replay_ends_after_last (zero : Int) (recTime : Bool) (ps : List SPoint) (bs : List LBatch) :
+    (liveStreamReplay zero recTime ps).closes = 1 ∧ (liveStreamReplay zero recTime ps).closedAt = ps.length ∧
+    (liveStreamReplay zero recTime ps).items.length = ps.length ∧
+    (liveBatchReplay true zero recTime bs).closes = 1 ∧ (liveBatchReplay true zero recTime bs).closedAt = bs.length ∧
+    (liveBatchReplay true zero recTime bs).items.length = bs.length := by
+  obtain ⟨d, _, h⟩ := replayLiveGo_rel zero recTime bs none none
+  have hl := h.length_eq
+  simp [liveStreamReplay, liveBatchReplay, replayStream, replayStreamGo_length, ← hl]
 
 end Kap.Props.C18
